@@ -2,7 +2,7 @@
 checked for every key of the history."""
 import core
 from corr.bloom import strategy
-from search.common import drive, keys_pool, noise_touch, shrink_ops
+from search.common import drive, keys_pool, make_twin, noise_touch, shrink_ops
 
 
 def gen(rng):
@@ -36,7 +36,7 @@ def check(case):
     effective = 0
     born = {}  # key -> effective-insertion index at which it was inserted after being reported absent
     explicit_since = {}
-    twin = RotatingBloomFilter(est_elements=est + 2, false_positive_rate=min(0.9, case["fpr"] * 2), max_queue_size=q + 1, hash_function=fn)
+    twin = make_twin(lambda: RotatingBloomFilter(est_elements=est + 2, false_positive_rate=case["fpr"] * 0.6, max_queue_size=q + 1, hash_function=fn))
     for step, op in enumerate(case["ops"]):
         noise_touch(twin, step)
         if op[0] == "add":
